@@ -315,7 +315,9 @@ def sets {K : Type} [DecidableEq K] (h : K → Nat) (kc : Codec K)
       | "from" , ks => match ks.mapM kc.parse with
         | some xs => let a' := HashMap.sFromList h xs; (sl.set! i a', s!"ok {a'.n}")
         | none => bad
-      | "addself", [] => let a' := HashMap.sAddAll h a a; (sl.set! i a', s!"ok {a'.n}")
+      | "addself", [] => match HashMap.selfMerge h a with -- `s << s` as coded: the body may rehash the table being enumerated
+        | some a' => (sl.set! i a', s!"ok {a'.n}")
+        | none => (sl, "oob")
       | "raw", [] => match HashMap.walk a with
         | some es => (sl, join (toString a.buckets.length :: es.map fun kv => kc.shw kv.1))
         | none => (sl, "oob")
